@@ -293,6 +293,13 @@ func (s *Store) Close() error {
 	vhook.Point("close.stoppedFlusher")
 	cerr := s.Err()
 
+	// Stop primary GC before anything is flushed. A GC cycle relocates records
+	// and re-points their index entries; that must not happen after the index
+	// has been flushed and closed.
+	if mp, ok := s.index.Primary.(*mhprimary.MultihashPrimary); ok {
+		mp.StopGC()
+	}
+
 	// Write primary data before the index records that refer to it, in the
 	// same order as commit does.
 	_, err := s.index.Primary.Flush()
